@@ -37,6 +37,7 @@ import LfsModel.Prune
 import LfsModel.Fsck
 import LfsModel.FsckScan
 import LfsModel.AttrFilter
+import LfsModel.TagRewrite
 import LfsModel.Rewrite
 import LfsModel.Locks
 import LfsModel.PostCommit
@@ -715,7 +716,28 @@ def c13 : List String → String
   | _ => "bad-op"
 
 /-! ### C12 -/
+def showTarget : TagRw.Target → String
+  | t => String.intercalate "," ((TagRw.metas t).map toString) ++ ":" ++ toString (TagRw.peel t)
+
 def c12 : List String → String
+  | ["tagrw", img, chain] =>
+    -- img: `c>c'` or `-` (the commit was not rewritten); chain: `m1,m2:c` (tag objects outermost first; `:c` = none)
+    let img? : Option (Nat → Option Nat) :=
+      if img == "-" then some (fun _ => none) else
+      match img.splitOn ">" with
+      | [a, b] => (match a.toNat?, b.toNat? with
+          | some x, some y => some (fun c => if c == x then some y else none) | _, _ => none)
+      | _ => none
+    let t? : Option TagRw.Target :=
+      match chain.splitOn ":" with
+      | [ms, c] =>
+        (match c.toNat?, (if ms == "" then some [] else (ms.splitOn ",").mapM (·.toNat?)) with
+         | some cn, some l => some (l.foldr (fun m acc => TagRw.Target.tag m acc) (TagRw.Target.commit cn))
+         | _, _ => none)
+      | _ => none
+    (match img?, t? with
+     | some f, some t => (match TagRw.rewrite f t with | some t' => showTarget t' | none => "none")
+     | _, _ => "bad-op")
   | ["fixupattr", lines] =>
     -- lines: `<0|1>:<hex value|none>` in the order Git reads them; answer 1 = --fixup converts the path
     let ls? : Option (List Rw.AttrLine) := if lines == "-" then some [] else (lines.splitOn ",").mapM fun t =>
